@@ -465,6 +465,9 @@ func latEnum(leaves []latLeaf, k int, yield func([]latPick) bool) bool {
 			}
 			for _, ma := range a.Moves {
 				for _, mb := range b.Moves {
+					if latNested(ma.Name) && latNested(mb.Name) {
+						continue // pairs of two element-level deviations are beyond the bound
+					}
 					if !yield([]latPick{{a.Where, ma.Name}, {b.Where, mb.Name}}) {
 						return false
 					}
@@ -473,6 +476,10 @@ func latEnum(leaves []latLeaf, k int, yield func([]latPick) bool) bool {
 		}
 	}
 	return true
+}
+
+func latNested(move string) bool {
+	return strings.HasPrefix(move, "elem") || strings.HasPrefix(move, "push-elem") || strings.HasPrefix(move, "accept-elem")
 }
 
 func latInside(outer, inner string) bool {
